@@ -303,10 +303,13 @@ bool Instance::eval(const size_t argc, char* const* argv) {
                 continue;
             }
         }
-        // hex string?
-        if (!(vlen & 1)) {
+        // hex string? (bare, or with the 0x prefix that the script parser understands and the warning above recommends)
+        {
+            const char* h = v;
+            size_t hlen = vlen;
+            if (hlen > 2 && h[0] == '0' && h[1] == 'x') { h += 2; hlen -= 2; }
             std::vector<unsigned char> pushData;
-            if (TryHex(v, pushData)) {
+            if (!(hlen & 1) && TryHex(h, pushData)) {
                 script << pushData;
                 continue;
             }
